@@ -306,6 +306,58 @@ def run_concurrent(spec, acc):
                 simgw.judge_bystander(sim, acc, {"client": kind, "messages": [[m.PGN, m.source] for m in msgs]})
             if rep % 10 == 0:
                 acc.sample({"client": kind, "messages": [[m.PGN, m.source, len(reference_packets(kind, m))] for m in msgs], "pause_plan": plan[:12], "stagger": stagger})
+        # (c) a sender that stops: the task awaiting send() is cancelled while its message is partly written (parked in
+        # drain()), another send() is queued behind it. What was written of the first message stays a prefix; nothing of it
+        # may follow once the second message has started, and the second goes out whole.
+        for rep in range(12 if quick else 200):
+            msgs = make_messages(dbx, rng, 2, box)
+            na, nb_ = (len(reference_packets(kind, m_)) for m_ in msgs)
+            if na < 3 or kind == "actisense":
+                continue
+            cancel_after = rng.randint(1, 6)
+            first_pause = rng.randint(cancel_after + 1, cancel_after + 6)
+
+            async def scenario_c(sim, msgs=msgs, cancel_after=cancel_after, first_pause=first_pause):
+                sim.spawn("connect")
+                await asyncio.sleep(0.1)
+                conn = sim.conns[-1]
+                sim.sent_from = len(conn.written)
+                conn.pause_plan = [0] * rng.randint(0, 2) + [first_pause] + [0, 1, 0, 2] * 10
+                ta = sim.spawn("send", msgs[0])
+                await asyncio.sleep(0)
+                tb = sim.spawn("send", msgs[1])
+                for _ in range(cancel_after):
+                    await asyncio.sleep(0)
+                ta.cancel()
+                await asyncio.wait([tb], timeout=2000.0)
+                await asyncio.sleep(1.0)
+                await sim.call("close")
+            sim, stats = simgw.run_session(kind, scenario_c)
+            acc.count("sessions")
+            acc.count("cancelled_sender_sessions")
+            if stats["error"]:
+                acc.inconclusive_because(f"simulator: {stats['error']}")
+                continue
+            log = b"".join(d for _, d in sim.conns[0].written[sim.sent_from:])
+            pk = parse_log(kind, log)
+            w = {"client": kind, "messages": [[m_.PGN, m_.source] for m_ in msgs], "cancel_after_steps": cancel_after}
+            acc.case((kind, "cancelled-sender", tuple((m_.PGN, m_.source) for m_ in msgs), cancel_after, first_pause))
+            if pk is None:
+                acc.violation("byte-log-not-a-packet-sequence", f"{kind}: bytes written are not a sequence of whole packets (cancelled sender)", dict(w, log=log.hex()[:600]))
+                continue
+            order = [s_ for s_, _ in pk]
+            sa, sb = msgs[0].source, msgs[1].source
+            if sb in order and sa in order[order.index(sb):]:
+                acc.violation("packets-of-concurrent-sends-interleaved", f"{kind}: packets of a cancelled send() went out after the next message had started "
+                              f"(sources in wire order: {order[:20]})", dict(w, source_order=order[:60]))
+            got_b = [d for s_, d in pk if s_ == sb]
+            fast_b = fast_of(msgs[1])
+            if norm(got_b, fast_b) != norm(reference_packets(kind, msgs[1]), fast_b):
+                acc.violation("message-packets-differ-from-encoder", f"{kind}: the message queued behind a cancelled send() was not written whole ({len(got_b)} of {nb_} packets)", w)
+            got_a = [d for s_, d in pk if s_ == sa]
+            ref_a = reference_packets(kind, msgs[0])
+            if norm(got_a, fast_of(msgs[0])) != norm(ref_a[:len(got_a)], fast_of(msgs[0])):
+                acc.violation("message-packets-differ-from-encoder", f"{kind}: what was written of the cancelled message is not a prefix of its packets", w)
     finally:
         cleanup()
 
